@@ -219,9 +219,9 @@ package parsers
 //@   requires c != nil && c.tokenizer != nil
 //@   ensures[C03] fresh(result) && (forall i int :: 0 <= i && i < len(result) ==> result[i] != nil && allocated(result[i]))
 //@   ensures[C03] c.initialTokens == old(c.initialTokens) && c.resultTokens == old(c.resultTokens) && c.currentTokenIndex == old(c.currentTokenIndex)
-//@   assigns any(tokenizers.AbstractTokenizer).Scanner, any(tokenizers.AbstractTokenizer).NextTokenValue, any(tokenizers.AbstractTokenizer).LastTokenType,
+//@   assigns any(tokenizers.AbstractTokenizer).Scanner, any(tokenizers.AbstractTokenizer).ReaderVersion, any(tokenizers.AbstractTokenizer).NextTokenValue, any(tokenizers.AbstractTokenizer).LastTokenType,
 //@       any(tokenizers.AbstractTokenizer).skipWhitespaces, any(tokenizers.AbstractTokenizer).skipComments, any(tokenizers.AbstractTokenizer).skipEof,
-//@       any(tokenizers.AbstractTokenizer).decodeStrings, any(tokenizers.MustacheTokenizer).special, any(tokenizers.MustacheTokenizer).lastReader, any(tokenizers.MustacheTokenizer).tagStart, any(tokenizers.MustacheTokenizer).comment
+//@       any(tokenizers.AbstractTokenizer).decodeStrings, any(tokenizers.MustacheTokenizer).special, any(tokenizers.MustacheTokenizer).lastVersion, any(tokenizers.MustacheTokenizer).tagStart, any(tokenizers.MustacheTokenizer).comment
 //@   nopanic
 //
 //@ func (c *MustacheParser) ParseString
